@@ -73,7 +73,7 @@ pub fn run(p: &Params, rep: &mut Report) {
         "removal requests naming unknown items are not judged (the library silently returns Ok for unknown ids)".into(),
         "DELETE queries are generated for ANNOTATION / RESOURCE / DATASET by plain alphanumeric id".into(),
     ];
-    let total: u64 = if p.thorough { 150000 } else { 3000 };
+    let total: u64 = if p.thorough { 150000 } else { 9000 };
     let maxops = if p.thorough { 40 } else { 28 };
     for k in p.cases(total) {
         rep.current_case = p.case_coord(k);
